@@ -212,15 +212,15 @@ fn c16_two_contours() {
 /// Symbolic coordinates: the commands carry the contour's own coordinates (and exact
 /// midpoints) whatever they are.
 // @tier thorough
-// @bound one contour of 3 points, every on/off pattern, every i16 coordinate
+// @bound one contour of 2 points, every on/off pattern, every i16 coordinate (3 points with symbolic coordinates: no answer in 40 min in the full harness, 490 s in the round-0 probe)
 #[kani::proof]
 #[kani::unwind(18)]
-fn c16_contour_walk_3pt_symbolic_coordinates() {
-    let mut on = [false; 3];
-    let mut pts = [(0.0f32, 0.0f32); 3];
-    let mut coords = Vec::with_capacity(3);
+fn c16_contour_walk_2pt_symbolic_coordinates() {
+    let mut on = [false; 2];
+    let mut pts = [(0.0f32, 0.0f32); 2];
+    let mut coords = Vec::with_capacity(2);
     let mut k = 0;
-    while k < 3 {
+    while k < 2 {
         on[k] = kani::any();
         let x: i16 = kani::any();
         let y: i16 = kani::any();
@@ -228,12 +228,12 @@ fn c16_contour_walk_3pt_symbolic_coordinates() {
         coords.push((flag(on[k]), Point(x, y)));
         k += 1;
     }
-    let mut table = glyph_table(coords, vec![2]);
+    let mut table = glyph_table(coords, vec![1]);
     let mut got = Rec::new();
     table.visit(0, &mut got).unwrap();
     let mut want = Rec::new();
     reference_contour(&mut want, &pts, &on);
     compare(&got, &want);
-    kani::cover!(!on[0] && !on[1] && !on[2], "all off-curve");
+    kani::cover!(!on[0] && !on[1], "all off-curve");
     std::mem::forget(table);
 }
